@@ -21,37 +21,39 @@ type LoopContract struct {
 }
 
 type FuncContract struct {
-	Pkg      string // package path
-	Key      string // Recv.Method | Func | Recv.Method$1
-	Props    []string
-	Requires []string
-	Ensures  []string
-	Modifies []string
-	ModifiesAll bool
-	Loops    map[int]*LoopContract
-	Arith    string
-	NoSafety bool
-	Role     string
-	Entry    bool
-	Trusted  string
-	Witness  []string
-	Lemma    bool
-	File     string
-	Line     int
-	ExitLocks []string // locks that must be released (not held) on every exit
-	Replay   string
-	Waits    []string // blocking points allowed
-	NoInlineCheck bool
+	Pkg            string // package path
+	Key            string // Recv.Method | Func | Recv.Method$1
+	Props          []string
+	Requires       []string
+	Ensures        []string
+	Modifies       []string
+	ModifiesAll    bool
+	Loops          map[int]*LoopContract
+	Arith          string
+	NoSafety       bool
+	Role           string
+	Entry          bool
+	Trusted        string
+	Witness        []string
+	Lemma          bool
+	File           string
+	Line           int
+	ExitLocks      []string // locks that must be released (not held) on every exit
+	Replay         string
+	Waits          []string // blocking points allowed
+	NoInlineCheck  bool
 	ClausePropsReq map[int][]string
-	WaitInv []string
-	Reachable []string // exits that must not be refuted as unreachable (vacuity guard)
-	AssumeAfter map[string][]string // callee short name -> input-domain assumptions taken right after each such call
-	NoCallPre bool // callee preconditions are not checked inside this function (listed as an open hole)
-	ObjInv []string // object invariant: assumed at entry / proved at exit of the body; hidden from callers in other packages
-	AtCall map[string][]string // callee short name -> assertions checked immediately before each such call
-	NoFrame bool
-	Like string // abstract contract of a func-typed field: parameter names/types taken from this function
-	LocksChange bool
+	WaitInv        []string
+	Emits          [][2]string         // (literal, field provenance)
+	EmitsProps     [][]string          // optional property tags per emits clause
+	Reachable      []string            // exits that must not be refuted as unreachable (vacuity guard)
+	AssumeAfter    map[string][]string // callee short name -> input-domain assumptions taken right after each such call
+	NoCallPre      bool                // callee preconditions are not checked inside this function (listed as an open hole)
+	ObjInv         []string            // object invariant: assumed at entry / proved at exit of the body; hidden from callers in other packages
+	AtCall         map[string][]string // callee short name -> assertions checked immediately before each such call
+	NoFrame        bool
+	Like           string // abstract contract of a func-typed field: parameter names/types taken from this function
+	LocksChange    bool
 	ClausePropsEns map[int][]string
 }
 
@@ -64,18 +66,18 @@ type PredDef struct {
 }
 
 type paramDef struct {
-	Name string
-	Type ast.Expr
+	Name     string
+	Type     ast.Expr
 	TypeText string
 }
 
 type GuardDecl struct {
-	Pkg    string
-	Struct string
-	Lock   string // expression over "self"
-	Fields []string
-	Props  []string
-	Class  string
+	Pkg       string
+	Struct    string
+	Lock      string // expression over "self"
+	Fields    []string
+	Props     []string
+	Class     string
 	LockField string // field of the struct that holds (or points to) the lock; "" for *
 }
 
@@ -88,15 +90,17 @@ type CondDecl struct {
 }
 
 type Contracts struct {
-	Funcs  map[string]*FuncContract // pkg + "." + key
-	Preds  map[string]*PredDef      // pkg + "." + name
-	Guards []*GuardDecl
-	Conds  []*CondDecl
-	Files  []string
-	byFn   map[*ssa.Function]*FuncContract
-	External map[string]*FuncContract // assumed contracts on dependencies, keyed by short function name
-	UFuns    map[string]*PredDef      // ghost (uninterpreted) spec functions, defined by axioms
-	Axioms   []*AxiomDef
+	Funcs     map[string]*FuncContract // pkg + "." + key
+	Preds     map[string]*PredDef      // pkg + "." + name
+	Guards    []*GuardDecl
+	Conds     []*CondDecl
+	Files     []string
+	byFn      map[*ssa.Function]*FuncContract
+	External  map[string]*FuncContract // assumed contracts on dependencies, keyed by short function name
+	UFuns     map[string]*PredDef      // ghost (uninterpreted) spec functions, defined by axioms
+	Axioms    []*AxiomDef
+	RegexDefs map[string]string // named regex fragments
+	HoleLangs map[string]string // language of string-typed holes by provenance ("m.URI" or "*.URI")
 }
 
 type AxiomDef struct {
@@ -116,7 +120,7 @@ func (c *Contracts) lookupFn(f *ssa.Function) *FuncContract {
 }
 
 func loadContracts(root string) (*Contracts, error) {
-	cs := &Contracts{Funcs: map[string]*FuncContract{}, Preds: map[string]*PredDef{}, byFn: map[*ssa.Function]*FuncContract{}, External: map[string]*FuncContract{}, UFuns: map[string]*PredDef{}}
+	cs := &Contracts{Funcs: map[string]*FuncContract{}, Preds: map[string]*PredDef{}, byFn: map[*ssa.Function]*FuncContract{}, External: map[string]*FuncContract{}, UFuns: map[string]*PredDef{}, RegexDefs: map[string]string{}, HoleLangs: map[string]string{}}
 	var files []string
 	filepath.Walk(root, func(p string, info os.FileInfo, err error) error { //nolint:errcheck
 		if err != nil {
@@ -151,7 +155,7 @@ func pkgPathOf(root, file string) string {
 var clauseKeywords = map[string]bool{
 	"props": true, "requires": true, "ensures": true, "modifies": true, "loop": true, "arith": true,
 	"nosafety": true, "role": true, "entry": true, "trusted": true, "witness": true, "lemma": true,
-	"exitlocks": true, "replay": true, "waitinv": true, "lockschange": true, "like": true, "noframe": true, "atcall": true, "invariant": true, "nocallpre": true, "assumeafter": true, "reachable": true,
+	"exitlocks": true, "replay": true, "waitinv": true, "lockschange": true, "like": true, "noframe": true, "atcall": true, "invariant": true, "nocallpre": true, "assumeafter": true, "reachable": true, "emits": true,
 }
 
 func (cs *Contracts) parseFile(root, file string) error {
@@ -203,6 +207,21 @@ func (cs *Contracts) parseFile(root, file string) error {
 			cs.Preds[pkg+"."+pd.Name] = pd
 			lastClause = &pd.Body
 			cur = nil
+			continue
+		case "regex", "holelang":
+			// regex NAME /.../   |   holelang <provenance> /.../
+			i := strings.Index(rest, " /")
+			if i < 0 || !strings.HasSuffix(rest, "/") {
+				return fmt.Errorf("%s:%d: bad %s clause", file, ln+1, word)
+			}
+			name, re := strings.TrimSpace(rest[:i]), rest[i+2:len(rest)-1]
+			if word == "regex" {
+				cs.RegexDefs[name] = re
+			} else {
+				cs.HoleLangs[name] = re
+			}
+			cur = nil
+			lastClause = nil
 			continue
 		case "ufun":
 			pd, err := parsePred(pkg, "spec", rest+" := 0")
@@ -341,6 +360,25 @@ func (cs *Contracts) parseFile(root, file string) error {
 			cur.NoFrame = true
 		case "nocallpre":
 			cur.NoCallPre = true
+		case "emits":
+			// emits [Cxx,Cyy] "literal" provenance
+			var eprops []string
+			if strings.HasPrefix(rest, "[") {
+				if j := strings.Index(rest, "]"); j > 0 {
+					eprops = strings.Split(strings.ReplaceAll(rest[1:j], " ", ""), ",")
+					rest = strings.TrimSpace(rest[j+1:])
+				}
+			}
+			q := strings.LastIndex(rest, "\"")
+			if !strings.HasPrefix(rest, "\"") || q <= 0 {
+				return fmt.Errorf("%s:%d: bad emits clause", file, ln+1)
+			}
+			lit, err := strconv.Unquote(rest[:q+1])
+			if err != nil {
+				return fmt.Errorf("%s:%d: bad emits literal: %v", file, ln+1, err)
+			}
+			cur.Emits = append(cur.Emits, [2]string{lit, strings.TrimSpace(rest[q+1:])})
+			cur.EmitsProps = append(cur.EmitsProps, eprops)
 		case "reachable":
 			cur.Reachable = append(cur.Reachable, rest)
 			lastClause = &cur.Reachable[len(cur.Reachable)-1]
